@@ -324,5 +324,67 @@ Definition run_logged (sym use_tot : bool) (g : graph) (radial : list bool) (heu
     (loop : list lop) (l : level) : bool * (counters * ess_out) :=
   run_logged_dm sym use_tot (dist_matrix g) (length g) radial heur loop l.
 
+(** ---- observed runs: the steps (direction and start vertex of every visit, pivots of every
+    SCC step) are reported by a guarded call-out of the code, not derived from a model of
+    the choice heuristics ---- *)
+
+(** boolean form of the condition [legal_op_sym] puts on the pivots of the SCC step: the
+    pivot assigned to a node is a node and reaches it *)
+Definition legal_pivots_symb (dm : list (list (option nat))) (n : nat) (piv : list nat) : bool :=
+  forallb (fun v => (nth v piv 0 <? n) && reaches dm (nth v piv 0) v) (seq 0 n).
+
+(** the code's pivot array has one entry per connected component; the machine's [piv] is
+    indexed by node: the pivot of a node is the one that reaches it.  [one_pivot_each]: every
+    node is reached by exactly one of the pivots (so the conversion does not depend on how
+    the components are numbered); a node no pivot reaches gets the non-node [n] *)
+Definition one_pivot_each (dm : list (list (option nat))) (n : nat) (pivots : list nat) : bool :=
+  forallb (fun v => length (filter (fun p => reaches dm p v) pivots) =? 1) (seq 0 n).
+Definition pivots_by_node (dm : list (list (option nat))) (n : nat) (pivots : list nat) : list nat :=
+  tab n (fun v => match find (fun p => reaches dm p v) pivots with Some p => p | None => n end).
+
+(** [sum_sweep_heuristic(start, 6)]: a forward visit from [start], then for i = 2..5 a backward
+    (i even) or forward (i odd) visit, SKIPPED when no node is incomplete in that direction
+    ([argmax_filtered] returns [None]).  [heur_len]: how many of the leading visits of an
+    observed run belong to the heuristic ([fwds]: the directions of the iterations left);
+    the main loop starts with a [find_missing_nodes] after them *)
+Fixpoint heur_len (sym : bool) dm (n : nat) radial (fwds : list bool) (ops : list op) (x : st) : nat :=
+  match fwds with
+  | [] => 0
+  | f :: fr =>
+    if 0 <? count n (if f then incF x else incB sym x) then
+      match ops with
+      | (OFwd _ _ as o) :: r | (OBwd _ _ as o) :: r => S (heur_len sym dm n radial fr r (step sym dm radial o x))
+      | _ => 0
+      end
+    else heur_len sym dm n radial fr ops x
+  end.
+Definition heur_dirs : list bool := [false; true; false; true].
+Definition split_heur (sym : bool) dm (n : nat) radial (ops : list op) : nat :=
+  match ops with
+  | (OFwd _ _ as o) :: r => S (heur_len sym dm n radial heur_dirs r (step sym dm radial o (init_st n sym)))
+  | _ => 0
+  end.
+
+(** an observed run: the heuristic's visits, one [find_missing_nodes], the main loop; no
+    step is resolved by the model ([LO]) *)
+Definition run_observed_dm (sym : bool) (dm : list (list (option nat))) (n : nat)
+    (radial : list bool) (ops : list op) (l : level) : bool * (counters * ess_out) :=
+  let h := split_heur sym dm n radial ops in
+  run_logged_dm sym false dm n radial (firstn h ops) (map LO (skipn h ops)) l.
+
+(** information: the pivots the model of [find_best_pivot] would choose at every SCC step of
+    an observed run ([vis]: the pivots of the visits so far) *)
+Fixpoint model_pivots (sym use_tot : bool) dm (n : nat) radial (ops : list op) (vis : list nat) (x : st)
+    : list (list nat) :=
+  match ops with
+  | [] => []
+  | o :: r =>
+    let rest := model_pivots sym use_tot dm n radial r (visit_pivots [o] ++ vis) (step sym dm radial o x) in
+    match o with
+    | OAll _ _ => best_pivots sym use_tot dm n (tot_sym dm n vis) x :: rest
+    | _ => rest
+    end
+  end.
+
 End EssM.
 Export EssM.
